@@ -9,6 +9,7 @@ pub mod meta;
 pub mod intercept;
 pub mod routing;
 pub mod deadline;
+pub mod reconnect;
 
 /// Shared event recorder so that events survive a panic or hang of the run.
 #[derive(Clone, Default)]
@@ -42,6 +43,7 @@ fn run_one(lab: &str, stim: &Value, rec: &Rec) {
         "intercept" => intercept::run(stim, rec),
         "routing" => routing::run(stim, rec),
         "deadline" => deadline::run(stim, rec),
+        "reconnect" => reconnect::run(stim, rec),
         _ => { eprintln!("unknown lab {lab}"); std::process::exit(2) }
     }
 }
